@@ -308,6 +308,14 @@ func init() {
 								name = constant.StringVal(tv.Value) // a named constant
 							}
 							got[name] = f.Name()
+							// an option that is not given has no effect: its default is the empty string
+							// (the usage text in the default's place would become every run's tags / header file / prefix)
+							def, isEmpty := "?", false
+							if tv, ok := sf.Info.Types[cl.Args[2]]; ok && tv.Value != nil && tv.Value.Kind() == constant.String {
+								def = constant.StringVal(tv.Value)
+								isEmpty = def == ""
+							}
+							r.Check(isEmpty, cmd+"/flag-default:"+name, cl.Pos(), "-%s defaults to the empty string (%q)", name, def)
 						}
 					}
 				}
